@@ -16,11 +16,13 @@ position 0 and at a later one, and a second time on the same state at the same p
 
 from __future__ import annotations
 
+import ast
+
 import itertools
 
 from .core import AnalysisError
 from .objmodel import ClassModel, new_parser_state, open_checkpoints
-from .ordabs import ModelRaise, Obj
+from .ordabs import Ev, ModelRaise, Obj
 from .repo import Repo
 
 RELS = ["src/pest/state.py", "src/pest/stack.py", "src/pest/checkpoint_int.py"]
@@ -101,7 +103,8 @@ def check_trivia(repo: Repo, where: str) -> tuple[int, list[tuple[str, str]]]:  
                     try:
                         state = new_parser_state(cm, "x" * 12, start, parser, where)
                         if atomic:
-                            state.atomic_depth.__dict__["_value"] = 1
+                            # (raised the way a rule raises it: through the counter's own +=, whatever it keeps inside)
+                            Ev({**cm.env, "state": state}, where, cm, 2000).run(ast.parse("state.atomic_depth += 1").body)
                         pairs: list = []
                         cm.call(state, "parse_trivia", pairs)
                         first_log = list(log)
